@@ -152,8 +152,52 @@ fn fxhash64_str(b: &[u8]) -> u64 {
     add(h, 0xFF)
 }
 
+/// the same function fed a `[u8]` / `Vec<u8>` key: a length prefix, then the bytes
+fn fxhash64_slice(b: &[u8]) -> u64 {
+    const K: u64 = 0x517c_c1b7_2722_0a95;
+    let h0 = (0u64.rotate_left(5) ^ b.len() as u64).wrapping_mul(K);
+    // continue from h0 over the bytes (no 0xFF terminator)
+    let add = |h: u64, w: u64| (h.rotate_left(5) ^ w).wrapping_mul(K);
+    let mut h = h0;
+    let mut r = b;
+    while r.len() >= 8 {
+        h = add(h, u64::from_le_bytes([r[0], r[1], r[2], r[3], r[4], r[5], r[6], r[7]]));
+        r = &r[8..];
+    }
+    if r.len() >= 4 {
+        h = add(h, u32::from_le_bytes([r[0], r[1], r[2], r[3]]) as u64);
+        r = &r[4..];
+    }
+    if r.len() >= 2 {
+        h = add(h, u16::from_le_bytes([r[0], r[1]]) as u64);
+        r = &r[2..];
+    }
+    if !r.is_empty() {
+        h = add(h, r[0] as u64);
+    }
+    h
+}
+
 fn fx_pairs() -> Vec<(String, String, String)> {
     let mut out = Vec::new();
+    for prefix in ["uWeapon", "uHead_F", "attack_"] {
+        let mut seen: HashMap<u64, String> = HashMap::new();
+        let mut found = 0;
+        for a in b'0'..=b'z' {
+            for b in b'0'..=b'z' {
+                if !(a as char).is_ascii_alphanumeric() || !(b as char).is_ascii_alphanumeric() {
+                    continue;
+                }
+                let s = format!("{}{}{}", prefix, a as char, b as char);
+                if let Some(t) = seen.insert(fxhash64_slice(s.as_bytes()), s.clone()) {
+                    if found < 2 {
+                        out.push(("fxhash64-slice".to_string(), t, s));
+                    }
+                    found += 1;
+                }
+            }
+        }
+    }
     for prefix in ["uWeapon", "uHead_F", "MID_Bod", "AID_Uni"] {
         for suffix in ["", "_0", "_body"] {
             let mut seen: HashMap<u64, String> = HashMap::new();
